@@ -119,7 +119,7 @@ CLAIMS = {
             "definitional unfolding lemmas with side conditions; invariant by induction over scheduler-call histories + pigeonhole (Lean 4) ; differential correspondence of EachScheduling; whole-system simulation incl. heterogeneous environments"),
     "C09": ("Lean theorems (load, worksteal, loadscope family): no disagreement report iff all registered collections equal the first; otherwise schedule() publishes exactly one failed report "
             "per disagreeing worker naming the first worker, dispatches nothing and leaves the scheduler unchanged; loadscope family: a disagreeing late joiner is never registered and an "
-            "unregistered node is never assigned work. The late-joiner clause is FALSE for load/worksteal on the current code: negation proved on a witness (known finding F4)",
+            "unregistered node is never assigned work; WHOLE SYSTEM, loadscope family: every runtests ever written went to a worker whose reported collection is exactly the agreed one (C09_sys_scope_tests_only_to_agreeing_workers). The late-joiner clause is FALSE for load/worksteal on the current code: negation proved on a witness (known finding F4)",
             "list lemmas + unfolding of schedule() (Lean 4), negation witness by decide ; differential correspondence with permuted/missing/extra/duplicated/empty collections; whole-system simulation with disagreeing initial and replacement workers"),
     "C06": ("Lean theorems: loadfile key of 'path::anything' is the path; loadscope key of 'prefix::name' is the prefix (class else module); loadgroup key of 'id@group' is the group, "
             "an ungrouped id is its own key (also with '@' inside a parametrisation id) - under decidable well-formedness hypotheses (no ':' in path / last segment, no '@' or ']' in "
